@@ -93,6 +93,12 @@ CHECKS["C13"] = dict(
     note="Trusts TLC and the interpreter's own rendering of receiver objects; three deviation classes of Wrappable._missing are recorded as known findings.",
     design="§5 C13")
 
+CHECKS["C14"] = dict(
+    technique="TLA+ spec PanIter (per-iterator state machine: new / _iter copy / alias / next / pure walks): TLC explores every history of <= 4 (5) operations over two variables for 7 body kinds and checks OnlyTargetMoves / WalksArePure / StoppedStays; every behaviour is replayed operation by operation in the real interpreter",
+    text="Bounded-exhaustive histories: each next / A / list-chain / reduce-chain result must be the machine's, so iterators derived by new, x.new, _iter never share progress, aliases do, walks do not advance, StopIterErr persists.",
+    note="Trusts TLC and the canonical rendering; StopIterErr outcomes are observed through try; built-in iterators are outside the statement.",
+    design="§5 C14")
+
 NOT_YET = {}
 
 def main():
